@@ -123,7 +123,9 @@ func c08ErrorStorm(o *Out, rng *RNG, tier string) {
 // at four depths, a leading-dot name, an empty directory) the error is put on EVERY callback and
 // on EVERY listing (the start directory included), for producer limits 1 / 2 / 16 (nested
 // directories listed in line, by a spawned producer, or mixed) and consumer limits 1 / 3; then a
-// scope Kill/Error event is raised from inside EVERY callback, which then fails itself.
+// scope Kill/Error event is raised from inside EVERY callback, which then fails itself; then the
+// same positions (and every listing, consumer polls and gaps, right after Run, the announced close)
+// with nothing failing inside the walk and the scope ended from another goroutine.
 func c08Sweep(o *Out, rng *RNG) {
 	tree := func() []*c08Node {
 		return []*c08Node{
@@ -166,6 +168,31 @@ func c08Sweep(o *Out, rng *RNG) {
 			for _, it := range items {
 				it := it
 				run(p, c, func(r *c08Run) { r.Scope, r.KillOn, r.KillEvt, r.CbErr = true, it, k%2, it })
+			}
+			// the same positions with NOTHING failing inside the walk: the scope is ended from outside (Kill /
+			// an error of another component; through the harness scope, an application scope or a child of
+			// it) when the n-th callback begins, when the n-th listing begins, at a consumer's n-th poll /
+			// gap, right after Run() and when the close is announced; and once from inside every callback
+			via := func(r *c08Run) { r.Scope, r.ExtEvt, r.ExtVia, r.ExtSync = true, k%2, (k/2)%3, k%5 != 0 }
+			for n := range items {
+				n := n
+				run(p, c, func(r *c08Run) { via(r); r.ExtAt, r.ExtN = "callback", n+1 })
+			}
+			for n := range lists {
+				n := n
+				run(p, c, func(r *c08Run) { via(r); r.ExtAt, r.ExtN = "readdir", n+1 })
+			}
+			for _, n := range []int{1, 2, 4, 9} {
+				n := n
+				run(p, c, func(r *c08Run) { via(r); r.ExtAt, r.ExtN = "poll", n })
+				run(p, c, func(r *c08Run) { via(r); r.ExtAt, r.ExtN = "gap", n })
+			}
+			run(p, c, func(r *c08Run) { via(r); r.ExtAt = "run" })
+			run(p, c, func(r *c08Run) { via(r); r.ExtAt = "closed" })
+			run(p, c, func(r *c08Run) { via(r); r.ExtAt, r.ExtSync = "prerun", true })
+			for _, it := range items {
+				it := it
+				run(p, c, func(r *c08Run) { r.Scope, r.KillOn, r.KillEvt = true, it, k%2 })
 			}
 		}
 	}
